@@ -30,7 +30,7 @@ func init() {
 		},
 		Batch: func(t string) int { return 75 },
 		Floors: []string{"values_encoded", "independent_decodes", "library_decodes", "shredded_files", "shredded_values_checked", "schema_exact", "schema_partial_or_mismatch", "schema_list", "schema_object", "read_convert_to_unshredded", "read_shredded_typed",
-			"read_raw_columns", "write_typed_buffer", "write_rows_deconstruct", "kind_object", "kind_array", "kind_decimal16", "kind_uuid", "kind_timestamp_ntz_nanos", "wide_objects_2byte_ids", "wide_array_in_wide_array", "strings_around_63", "marshal_roundtrips", "place_top", "place_repeated", "place_in_group", "place_optional", "optional_group_null", "schema_list_under_repeated", "write_go_values", "write_encoded_bytes", "write_column_writer_value", "write_column_writer_events", "read_variant_reader", "builder_encodes", "typed_leaf_values_stored", "residual_values_stored"},
+			"read_raw_columns", "write_typed_buffer", "write_rows_deconstruct", "kind_object", "kind_array", "kind_decimal16", "kind_uuid", "kind_timestamp_ntz_nanos", "wide_objects_2byte_ids", "wide_array_in_wide_array", "strings_around_63", "marshal_roundtrips", "place_top", "place_repeated", "place_in_group", "place_in_optional_group", "long_files", "place_optional", "optional_group_null", "schema_list_under_repeated", "write_go_values", "write_encoded_bytes", "write_column_writer_value", "write_column_writer_events", "read_variant_reader", "builder_encodes", "typed_leaf_values_stored", "residual_values_stored"},
 		Rule: "case = one of (a) a variant value tree over every primitive kind at boundary values (int widths at min/max, decimals 4/8/16 with scales, four timestamp flavours, strings of 0/63/64/65 bytes, binary, uuid), depth <= 4, objects with 0..40 fields incl. > 255 distinct keys, arrays of 0..300 elements: " +
 			"Encode, then an independent decoder written from VariantEncoding.md and the library's Decode must both return an equal tree; Marshal/Unmarshal of the Go form; (b) a (shredding schema, 6 values) pair: schema from the same pools (exact, partial, mismatching, nested list/object); written through GenericWriter, GenericBuffer+WriteRowGroup and WriteRows(Deconstruct); " +
 			"read back converted to unshredded (metadata,value), through the shredded schema, and by reassembling raw columns; every read must equal the written value under structural equality. Distinct = descriptor hash",
@@ -571,6 +571,15 @@ type c19GrpAny struct {
 	G  c19GrpAnyG `parquet:"g"`
 }
 
+type c19OGrpRaw struct {
+	ID int32       `parquet:"id"`
+	G  *c19GrpRawG `parquet:"g"`
+}
+type c19OGrpAny struct {
+	ID int32       `parquet:"id"`
+	G  *c19GrpAnyG `parquet:"g"`
+}
+
 type c19Place struct {
 	name     string
 	prefix   string // leaf path prefix of the variant group
@@ -588,6 +597,9 @@ var c19Places = []c19Place{
 	{"optional", "var", 1, 0, func(n parquet.Node) *parquet.Schema {
 		return parquet.NewSchema("table", parquet.Group{"id": parquet.Int(32), "var": parquet.Optional(n)})
 	}},
+	{"in_optional_group", "g.var", 1, 0, func(n parquet.Node) *parquet.Schema {
+		return parquet.NewSchema("table", parquet.Group{"id": parquet.Int(32), "g": parquet.Optional(parquet.Group{"x": parquet.Int(32), "var": n})})
+	}},
 	{"in_group", "g.var", 0, 0, func(n parquet.Node) *parquet.Schema {
 		return parquet.NewSchema("table", parquet.Group{"id": parquet.Int(32), "g": parquet.Group{"x": parquet.Int(32), "var": n}})
 	}},
@@ -595,6 +607,9 @@ var c19Places = []c19Place{
 
 // c19IO is what one placement needs: building rows of the `any` type, and
 // pulling the variants out of rows of either type.
+// c19WriterOpts are the extra writer options of the current case (page size, dictionary limit).
+var c19WriterOpts []parquet.WriterOption
+
 type c19IO[A, R any] struct {
 	mk     func(id int, vals []any) A
 	getAny func(A) []any
@@ -603,20 +618,38 @@ type c19IO[A, R any] struct {
 
 func c19Shredding(c *Ctx, r *gen.Rand) {
 	shred, sd := c19ShredNode(r, 0)
-	pl := c19Places[gen.Pick(r, []int{0, 0, 1, 1, 2, 2, 3})]
+	pl := c19Places[gen.Pick(r, []int{0, 0, 1, 1, 2, 2, 3, 4, 4})]
 	// values per row
 	var rowVals [][]*specreader.VT
 	total := 0
-	for total < 6 {
+	// every fifth shredding case is a long file of values that mostly match the schema, written with
+	// small pages and a small dictionary limit: typed_value columns span many pages and fall back
+	// from dictionary to PLAIN encoding in the middle of a chunk
+	target := 6
+	long := (c.Case/3)%5 == 4
+	if long {
+		target = gen.Pick(r, []int{300, 900})
+		c.Obs("long_files", 1)
+	}
+	c19WriterOpts = nil
+	if long || r.P(30) {
+		c19WriterOpts = []parquet.WriterOption{parquet.PageBufferSize(gen.Pick(r, []int{64, 512})), parquet.DefaultEncoding(&parquet.RLEDictionary), parquet.DictionaryMaxBytes(gen.Pick(r, []int64{64, 256, 2048}))}
+	}
+	for total < target {
 		n := 1
 		if pl.rep > 0 {
 			n = gen.Pick(r, []int{0, 1, 2, 3})
 		}
 		vs := []*specreader.VT{}
 		for i := 0; i < n; i++ {
-			v := c19Value(r, 0, false)
-			if r.P(60) {
-				v = c19Matching(r, sd, 0)
+			var v *specreader.VT
+			if long {
+				v = c19Matching(r, sd, 1) // depth 1: small values
+			} else {
+				v = c19Value(r, 0, false)
+				if r.P(60) {
+					v = c19Matching(r, sd, 0)
+				}
 			}
 			if pl.name == "optional" && r.P(30) {
 				v = nil // the optional group itself is null (a Go nil in the `any` field)
@@ -664,6 +697,24 @@ func c19Shredding(c *Ctx, r *gen.Rand) {
 		c19Run(c, pl, shred, sd, rowVals, writePath, goForm, c19IO[c19TopAny, c19TopRaw]{
 			mk:     func(id int, v []any) c19TopAny { return c19TopAny{ID: int32(id), Var: v[0]} },
 			getAny: func(a c19TopAny) []any { return []any{a.Var} },
+		})
+	case "in_optional_group":
+		c19Run(c, pl, shred, sd, rowVals, writePath, goForm, c19IO[c19OGrpAny, c19OGrpRaw]{
+			mk: func(id int, v []any) c19OGrpAny {
+				return c19OGrpAny{ID: int32(id), G: &c19GrpAnyG{X: int32(id), Var: v[0]}}
+			},
+			getAny: func(a c19OGrpAny) []any {
+				if a.G == nil {
+					return []any{nil}
+				}
+				return []any{a.G.Var}
+			},
+			getRaw: func(a c19OGrpRaw) []c19Raw {
+				if a.G == nil {
+					return []c19Raw{{}}
+				}
+				return []c19Raw{a.G.Var}
+			},
 		})
 	case "repeated":
 		c19Run(c, pl, shred, sd, rowVals, writePath, goForm, c19IO[c19RepAny, c19RepRaw]{
@@ -734,7 +785,7 @@ func c19Run[A, R any](c *Ctx, pl c19Place, shred parquet.Node, sd *c19Desc, rowV
 		buf := new(bytes.Buffer)
 		switch writePath {
 		case "typed_writer":
-			w := parquet.NewGenericWriter[A](buf, schema)
+			w := parquet.NewGenericWriter[A](buf, append([]parquet.WriterOption{schema}, c19WriterOpts...)...)
 			if _, err := w.Write(rows); err != nil {
 				c.Fail("c19.shred_write", keys, "Write: %v (schema %s)", err, sdesc)
 				return
@@ -749,7 +800,7 @@ func c19Run[A, R any](c *Ctx, pl c19Place, shred parquet.Node, sd *c19Desc, rowV
 				c.Fail("c19.shred_write", keys, "GenericBuffer.Write: %v (schema %s)", err, sdesc)
 				return
 			}
-			w := parquet.NewGenericWriter[A](buf, schema)
+			w := parquet.NewGenericWriter[A](buf, append([]parquet.WriterOption{schema}, c19WriterOpts...)...)
 			if _, err := w.WriteRowGroup(b); err != nil {
 				c.Fail("c19.shred_write", keys, "WriteRowGroup: %v", err)
 				return
@@ -760,7 +811,7 @@ func c19Run[A, R any](c *Ctx, pl c19Place, shred parquet.Node, sd *c19Desc, rowV
 			}
 			c.Obs("write_typed_buffer", 1)
 		case "column_writer_value", "column_writer_events":
-			w := parquet.NewGenericWriter[A](buf, schema, parquet.PageBufferSize(gen.Pick(c.R, []int{64, 1024, 65536})))
+			w := parquet.NewGenericWriter[A](buf, append([]parquet.WriterOption{schema, parquet.PageBufferSize(gen.Pick(c.R, []int{64, 1024, 65536}))}, c19WriterOpts...)...)
 			vw, err := parquet.NewVariantColumnWriter(w, strings.Split(pl.prefix, ".")...)
 			if err != nil {
 				c.Fail("c19.shred_write", keys, "NewVariantColumnWriter(%s): %v (schema %s)", pl.prefix, err, sdesc)
@@ -773,7 +824,7 @@ func c19Run[A, R any](c *Ctx, pl c19Place, shred parquet.Node, sd *c19Desc, rowV
 						continue
 					}
 					lf, _ := schema.Lookup(path...)
-					if _, err := cws[lf.ColumnIndex].WriteRowValues([]parquet.Value{parquet.Int32Value(int32(i)).Level(0, 0, lf.ColumnIndex)}); err != nil {
+					if _, err := cws[lf.ColumnIndex].WriteRowValues([]parquet.Value{parquet.Int32Value(int32(i)).Level(0, lf.MaxDefinitionLevel, lf.ColumnIndex)}); err != nil {
 						c.Fail("c19.shred_write", keys, "ColumnWriter(%v).WriteRowValues: %v", path, err)
 						return
 					}
@@ -801,7 +852,7 @@ func c19Run[A, R any](c *Ctx, pl c19Place, shred parquet.Node, sd *c19Desc, rowV
 			}
 			c.Obs("write_"+writePath, 1)
 		default:
-			w := parquet.NewWriter(buf, schema)
+			w := parquet.NewWriter(buf, append([]parquet.WriterOption{schema}, c19WriterOpts...)...)
 			for i := range rows {
 				if _, err := w.WriteRows([]parquet.Row{schema.Deconstruct(nil, &rows[i])}); err != nil {
 					c.Fail("c19.shred_write", keys, "WriteRows(Deconstruct): %v (schema %s)", err, sdesc)
